@@ -72,6 +72,14 @@ def scc_case(name, keys, edges, rng, ncontainers=3):
         for u in order:
             steps.append("gins %d %d" % (gi, u))
         steps.append("gscc %d" % gi)
+    # scc() again on the same containers after the EDGES changed (edge changes go through the nodes, not through the
+    # container): the partition must be that of the current graph, and a repeated call without a change must repeat it
+    if n >= 1:
+        for j in range(rng.randint(1, 3)):
+            u, v = rng.randrange(n), rng.randrange(n)
+            r = rng.random()
+            steps.append("con %d %d %d" % (u, v, 500 + j) if r < 0.55 else "dis %d %d" % (u, keys[v]) if r < 0.9 else "iso %d" % u)
+        steps += ["gscc 0", "gscc 0", "gscc %d" % (ncontainers - 1)]
     return Case(name, "D", steps, dict(kind="scc", nodes=n, edges=len(edges)))
 
 
@@ -264,8 +272,8 @@ def gen_container(cls, rng, tier):
         # from the third graph on only a part of the nodes are members: edges cross the membership boundary both ways
         steps = g.steps() + ["gnew"] + ["gins 0 %d" % u for u in range(g.n) if gi < 2 or rng.random() < 0.7]
         for ga in (0, 1, 2):
-            for na in (0, 1, 2):
-                for ea in (0, 1, 2, 3, 4):
+            for na in (0, 1, 2, 3):
+                for ea in (0, 1, 2, 3, 4, 5):
                     if cls == "U":
                         steps.append("only:ungraph gdota 0 %d %d %d" % (ga, na, ea))
                     else:
@@ -326,7 +334,7 @@ def gen_container(cls, rng, tier):
                 qs = ["glen", "gvec", "giter", "gorph", "gdot"] + (["groots", "gleaves"] if cls == "D" else [])
                 steps.append("%s %d" % (rng.choice(qs), g))
             else:
-                steps.append(("only:ungraph " if cls == "U" else "") + "gdota %d %d %d %d" % (g, rng.randrange(3), rng.randrange(3), rng.randrange(5)))
+                steps.append(("only:ungraph " if cls == "U" else "") + "gdota %d %d %d %d" % (g, rng.randrange(3), rng.randrange(4), rng.randrange(6)))
         steps.append("snap")
         cases.append(Case("kr%s%d" % (cls, ci), cls, steps, dict(kind="random-container-history")))
     # large containers (100-300 members): views and lookups after many inserts / removes
@@ -874,6 +882,10 @@ def mutations(doc, rng, exhaustive):
     add([copy.deepcopy(nodes)], "edges-missing")
     add([copy.deepcopy(nodes), copy.deepcopy(edges), []], "extra-top-element")
     add({"nodes": 1}, "top-is-map")
+    # maps whose CONTENT is well typed: the format is a sequence, a map is an error whatever it holds
+    add({"nodes": copy.deepcopy(nodes), "edges": copy.deepcopy(edges)}, "top-is-well-typed-map")
+    add({"nodes": copy.deepcopy(nodes)}, "top-is-map-of-nodes")
+    add({"nodes": copy.deepcopy(nodes), "edges": copy.deepcopy(edges) + [[999, 998, 1]]}, "top-is-map-with-undeclared-key")
     add(7, "top-is-int")
     add(None, "top-is-null")
     add([copy.deepcopy(edges), copy.deepcopy(nodes)], "lists-swapped")
